@@ -26,6 +26,10 @@ def cases(tier, seed):
     for i in range(60 if tier == "quick" else 1200):
         cd = gen.random_circuit(rng, n_in=rng.randint(1, 4), n_gates=rng.randint(1, 5), max_fanin=3, p_const=0.3,
                                 p_out=0.4, allow_input_output=rng.random() < 0.3)
+        if rng.random() < 0.25:
+            cd = gen.adversarial_rename(cd, rng)  # names the transform itself would derive from other nodes
+        if rng.random() < 0.3:
+            cd = gen.shuffle_nodes(cd, rng)  # node insertion order decides iteration order inside the library
         names = [r[0] for r in cd["nodes"]]
         outs = [r[0] for r in cd["nodes"] if r[2]]
         for n in rng.sample(names, min(3, len(names))):
@@ -33,7 +37,8 @@ def cases(tier, seed):
             if outs:
                 eps.append([rng.choice(outs)])
                 eps.append(sorted(rng.sample(outs, rng.randint(1, len(outs)))))
-            yield {"c": cd, "n": n, "ep": rng.choice(eps)}
+            others = [m for m in names if m != n]
+            yield {"c": cd, "n": n, "ep": rng.choice(eps), "n2": (rng.choice(others) if others and rng.random() < 0.5 else None)}
 
 
 def _eval_forced(c, inputs, forced):
@@ -48,6 +53,13 @@ def _eval_forced(c, inputs, forced):
             val = oracle.gate_value(t, [v[p] for p in g.predecessors(n)])
         v[n] = (not val) if n in forced else val
     return v
+
+
+def _rejected_for_names(ex, g):
+    """a ValueError that reports a name clash on a circuit containing names shaped like the library's own derived names
+    is a legitimate rejection (outside the property's domain), not a failure"""
+    msg = str(ex)
+    return ("already in circuit" in msg or "overlap" in msg or "already exists" in msg) and any(gen.looks_derived(x) for x in g)
 
 
 def run_case(case):
@@ -73,6 +85,8 @@ def run_case(case):
         try:
             m = cg.tx.sensitization_transform(c, n, endpoints=(list(ep) if ep else None))
         except ValueError as ex:
+            if _rejected_for_names(ex, g):
+                return {"nontrivial": False, "failures": []}
             m = None
             kind = "sensitization_transform-raises"
             if ep and n in ep and n not in set().union(*[nx.ancestors(g, e) for e in E]):
@@ -138,6 +152,8 @@ def run_case(case):
         try:
             st = cg.tx.sensitivity_transform(c, n)
         except Exception as ex:
+            if isinstance(ex, ValueError) and _rejected_for_names(ex, g):
+                return {"nontrivial": False, "failures": []}
             st = None
             fails.append({"kind": "sensitivity_transform-raises", "msg": f"n={n}: {ex!r}"})
         if st is not None:
@@ -168,6 +184,8 @@ def run_case(case):
             if got != want_sens:
                 fails.append({"kind": "sensitivity-wrong", "msg": f"n={n}: {got} expected {want_sens} (|sp|={len(sp)})"})
         except Exception as ex:
+            if isinstance(ex, ValueError) and _rejected_for_names(ex, g):
+                return {"nontrivial": False, "failures": []}
             fails.append({"kind": "sensitivity-raises", "msg": f"n={n}: {ex!r}"})
         want_infl = {s: Fraction(infl[s], 1 << len(sp)) for s in sp}
         try:
@@ -177,7 +195,16 @@ def run_case(case):
             tot = cg.props.avg_sensitivity(c, n, approx=False)
             if Fraction(tot).limit_denominator(1 << 16) != sum(want_infl.values()):
                 fails.append({"kind": "avg_sensitivity-wrong", "msg": f"n={n}: {tot} expected {sum(want_infl.values())}"})
+            n2 = case.get("n2")
+            if n2 is not None and n2 in g and not fails and c.startpoints(n2):
+                # a list of nodes gives, per node, what the single-node call gives (the single-node values are checked above)
+                both = cg.props.influence(c, [n, n2], approx=False)
+                one2 = cg.props.influence(c, n2, approx=False)
+                if both != {n: got, n2: one2}:
+                    fails.append({"kind": "influence-of-a-list-differs-from-single-calls", "msg": f"[{n},{n2}]: {both} vs {got} / {one2}"})
         except Exception as ex:
+            if isinstance(ex, ValueError) and _rejected_for_names(ex, g):
+                return {"nontrivial": False, "failures": []}
             kind = "influence-raises" + ("-for-input-node" if g.nodes[n]["type"] == "input" else "")
             fails.append({"kind": kind, "msg": f"n={n}: {ex!r}"})
     if circ.snapshot(c) != snap:
